@@ -10,7 +10,8 @@
   Abstraction (function `abs` is computed by the engine from the real session right before the flush):
     * object ids are positions in `status` / `refs`;
     * `refs[x]` = for every attribute of `obj._attrs_with_columns_` with `attr.reverse` and a non-`None` value, in attribute
-      order: the referenced object and whether the attribute's bit is set in `obj._wbits_` (`dirty`);
+      order (primary-key attributes that are references included): the referenced object and whether the attribute's bit
+      is set in `obj._wbits_` (`dirty`; always false for primary-key attributes, whose bit is 0);
     * `queue` = `cache.objects_to_save` (with its `None` holes);
     * the slot clearing done by `_save_` (`objects_to_save[save_pos] = None` / `pop()`) is represented by the test
       "already written during this flush" in `saveQueue` (an object saved through the recursion is skipped when the
